@@ -23,7 +23,7 @@ NPROC = 16
 RULE = ('each case = one radial_solver call in its own sanitized interpreter: (a) every layer stack of 1-2 layers (quick; 1-3 thorough) over {solid,liquid}x{static,dynamic}x'
         '{compressible,incompressible} INCLUDING liquid surface layers, both nondimensionalize values; (b) degree l=1 on every such stack (singular surface systems) and one case per argument fault (bad/duplicate/too many solve_for, wrong '
         'types and lengths, unknown layer type / integrator, <=3 slices, unsorted or too small upper radii, empty / length-1 / non-contiguous arrays, each of the five arrays shorter or longer than the others, NaN/0/negative/inf '
-        'in each material array and scalar, degree 0/1/255, rtol/atol 0/negative/NaN, step / RAM budgets 0/1/5, expected_size 0/1, max_step tiny/huge); (c) random pairwise combinations; '
+        'in each material array and scalar, degree 0/1/255, rtol/atol 0/negative/NaN, step / RAM budgets 0/1/5 and budgets that run out in an upper layer, expected_size 0/1, max_step tiny/huge); (c) random pairwise combinations; '
         '(d) lifetime probes; non-trivial = the child produced an outcome record or died (both are observations); distinct by case hash')
 ASSUMPTIONS = ['CPython, numpy, scipy(LAPACK) and CyRK are not instrumented: errors inside them are only seen when they touch instrumented memory or crash',
                'input preservation tolerance 8 ulp (non-dimensionalisation and its inverse are a multiply and a divide)',
@@ -91,6 +91,11 @@ def gen_cases(tier, seed):
             for nd in ((True, False) if n == 1 else (bool(si % 2),)):
                 cases.append({'kind': 'fault', 'stack': [list(x) for x in st], 'nondim': nd, 'freq': 2e-4, 'kamata': True, 'fault': {'kw': {'degree_l': 1}}, 'id': k})
                 k += 1
+    # step budgets that let a cheap static-liquid core finish and run out in a layer above it (failure after earlier layers succeeded)
+    for st in ([['liquid', True, False], ['solid', False, False]], [['liquid', True, False], ['solid', False, False], ['solid', False, False]], [['liquid', True, False], ['liquid', False, False], ['solid', True, False]]):
+        for ms in (10, 30, 50):
+            cases.append({'kind': 'fault', 'stack': st, 'nondim': bool(ms != 30), 'freq': 2e-4, 'kamata': True, 'fault': {'kw': {'max_num_steps': ms}}, 'id': k})
+            k += 1
     nrand = 40 if tier == 'quick' else 1200
     for i in range(nrand):
         f1, f2 = FAULTS[int(rng.integers(len(FAULTS)))], FAULTS[int(rng.integers(len(FAULTS)))]
